@@ -131,6 +131,8 @@ def catalogue(inv, rng=None, missing=True, per_node_cap=None):
             for pos in (1, 0, 23, 24, -1):
                 a.append(("router-acl-add-rule", dict(rule, target_router=nm, position=pos), ex))
             a.append(("router-acl-add-rule", dict(rule, target_router=nm, position=2, src_ip="ALL", protocol_name="ALL", dst_port="ALL", dst_wildcard="NONE"), ex))
+            # an address, wildcard and port that no observation list of the scenario mentions
+            a.append(("router-acl-add-rule", dict(rule, target_router=nm, position=3, src_ip="10.250.0.77", src_wildcard="0.0.3.255", dst_port=21), ex))
             for pos in (1, 0, 22, 24, 30):
                 a.append(("router-acl-remove-rule", {"target_router": nm, "position": pos}, ex))
         if d["kind"] == "firewall":
